@@ -1,9 +1,76 @@
-From Coq Require Import List ZArith Bool Arith QArith.
-From Koala Require Import Model.Points Proofs.PointsFacts.
+(* Props/C19.v — point-set generators stay in the unit square, keep spacing, are reproducible.
+   Model: coq/Model/Points.v (accept/reject core of bluenoise over an ARBITRARY stream of chosen
+   indices and candidate points; crop of hyperuniform over ARBITRARY kicked points; uniform) and
+   coq/Gen/RngUse.v (regenerated on every run from pointsets.py by translate/rng_use.py).
+   A model point (X, Y) stands for (X / sc, Y / sc): sc > 0 is the common power-of-two scale of one run.
+
+   NOT covered by a theorem (S / K only, see harness/c19.py):
+     * "given >= 20 attempts per sample the points extend to within two grid spacings of all four
+       sides" — probabilistic (depends on the RNG), evaluated per grid shape on the implementation;
+     * termination of bluenoise (probabilistic);
+     * that numpy's Generator is deterministic given its seed and that rng.uniform returns values in
+       [0, 1) — the RNG is outside the model: its draws are the arbitrary streams / hypotheses below. *)
+From Coq Require Import List ZArith Bool Arith QArith String.
+From Koala Require Import Model.Points Model.RngIR Gen.RngUse Proofs.PointsFacts Proofs.RngUseFacts.
 Import ListNotations.
 Open Scope Z_scope.
 
-(* clause "uniform returns exactly n points" *)
-Theorem C19_uniform_count : forall (n : nat) (draw : nat -> pt), length (uniform n draw) = n.
+(* clause "blue-noise points are pairwise farther apart than one grid spacing (distance > 1 before
+   normalisation by (nx, ny))": invariant of every reachable state, for every stream *)
+Theorem C19_bluenoise_spacing : forall (sc nx ny : Z) (k : nat) (x0 : pt) (its : list (nat * list pt)) (st : state),
+  run sc nx ny k (init x0) its = Some st ->
+  forall (i j : nat) (a b : pt), i <> j ->
+    nth_error (samples st) i = Some a -> nth_error (samples st) j = Some b ->
+    sc * sc < d2 a b.
+Proof. exact bluenoise_spacing. Qed.
+Print Assumptions C19_bluenoise_spacing.
+
+(* clause "every generated point lies in the unit square [0,1]^2 for every grid shape" (bluenoise):
+   all nx, ny >= 1, nx <> ny included; the hypothesis on x0 is the contract of
+   rng.uniform(size=(2,)) in [0,1) times (nx, ny) (pointsets.py:24) *)
+Theorem C19_bluenoise_in_unit_square : forall (sc nx ny : Z) (k : nat) (x0 : pt) (its : list (nat * list pt)) (out : list (Q * Q)),
+  0 < sc -> 1 <= nx -> 1 <= ny ->
+  (0 <= fst x0 <= sc * nx /\ 0 <= snd x0 <= sc * ny) ->
+  bluenoise sc nx ny k x0 its = Some out ->
+  forall q, In q out -> (0 <= fst q <= 1 /\ 0 <= snd q <= 1)%Q.
+Proof. exact bluenoise_in_unit_square. Qed.
+Print Assumptions C19_bluenoise_in_unit_square.
+
+(* same clause, hyperuniform: whatever the jittered and kicked points are, what is returned lies
+   strictly inside the unit square (pointsets.py:74-75) *)
+Theorem C19_hyperuniform_in_unit_square : forall (sc : Z) (final_points : list pt) (q : Q * Q),
+  0 < sc -> In q (hyperuniform sc final_points) ->
+  (0 < fst q < 1 /\ 0 < snd q < 1)%Q.
+Proof. exact hyperuniform_in_open_unit_square. Qed.
+Print Assumptions C19_hyperuniform_in_unit_square.
+
+(* clause "uniform returns exactly n points", all n >= 0 *)
+Theorem C19_uniform_count : forall (n : nat) (draw : nat -> pt), List.length (uniform n draw) = n.
 Proof. exact uniform_length. Qed.
 Print Assumptions C19_uniform_count.
+
+(* clause "nothing depends on or disturbs the global random state when a generator is supplied":
+   in today's pointsets.py every call on the global np.random module is np.random.default_rng under
+   `if rng is None`; every other random call goes through the rng parameter *)
+Theorem C19_uses_only_supplied_rng : uses_only_supplied_rng pointsets_functions = true.
+Proof. exact pointsets_use_only_supplied_rng. Qed.
+Print Assumptions C19_uses_only_supplied_rng.
+
+(* ------------------------------------------------------------------ non-vacuity *)
+(* a run on a 3 x 2 grid (nx <> ny), k = 2, scale 4: accepts (5/4... ) one candidate, rejects a close one,
+   skips one outside, removes an index; hypotheses of the theorems above hold and the output is not trivial *)
+Example C19_bluenoise_nonvacuous :
+  let its := [ (0%nat, [ (20, 2) (* x > nx: outside *) ; (9, 6) (* accepted *) ]) ;
+               (1%nat, [ (10, 7) (* too close *) ; (8, 5) (* too close, last: remove 1 *) ]) ;
+               (0%nat, [ (2, 9) (* y > ny: outside *) ; (5, 3) (* too close, last: remove 0 *) ]) ] in
+  exists st, run 4 3 2 2 (init (2, 2)) its = Some st /\ samples st = [(2, 2); (9, 6)] /\ finished st = true /\
+    bluenoise 4 3 2 2 (2, 2) its = Some [(2 # 12, 2 # 8)%Q; (9 # 12, 6 # 8)%Q].
+Proof. vm_compute. eexists. repeat split; reflexivity. Qed.
+
+Example C19_hyperuniform_nonvacuous :
+  hyperuniform 8 [(1, 1); (0, 3); (8, 2); (7, 7); (-1, 4); (3, 9)] = [(1 # 8, 1 # 8)%Q; (7 # 8, 7 # 8)%Q].
+Proof. vm_compute. reflexivity. Qed.
+
+Example C19_rng_use_nonvacuous :
+  forallb draws_from_rng pointsets_functions = true /\ (3 <= List.length pointsets_functions)%nat.
+Proof. exact pointsets_draw_from_rng. Qed.
